@@ -859,6 +859,7 @@ func c19M5(r *core.R) {
 		lookupBad, lookupUnknown := "", ""
 		kindBad, kindUnknown := "", ""
 		minBad, minUnknown := "", ""
+		first, firstWhy := t.firstSeq()
 		var minVal int64
 		nsearch := 0
 		if !complete {
@@ -942,8 +943,10 @@ func c19M5(r *core.R) {
 			switch {
 			case !isConst:
 				minUnknown = fmt.Sprintf("%s is %s, not a constant", m.minFld.Name(), c19Show(hi.field(desc, m.minFld, "Min")))
-			case mv < 1:
-				minBad = fmt.Sprintf("%s: %d: sequence number 0 selects the current-state file, so the lower bound of the search would be the newest state and every lookup returns it", m.minFld.Name(), mv)
+			case mv < first:
+				minBad = fmt.Sprintf("%s: %d: below the first sequence number %d; sequence number 0 selects the current-state file, so the lower bound of the search would be the newest state and every lookup returns it", m.minFld.Name(), mv, first)
+			case mv > first:
+				minBad = fmt.Sprintf("%s: %d, but the least sequence number a replication directory can hold is %d (%s). The search treats the state of sequence number %s as the lowest state of the directory: when it exists and is at or after the query time it is returned as the answer (M6 order@… answer) and nothing below it is ever probed. That is right for every directory only when %s is the least possible number: a mirror or archive that keeps states %d..%d answers every query at or before the time of state %d with state %d instead of the first state at or after it", m.minFld.Name(), mv, first, firstWhy, m.minFld.Name(), m.minFld.Name(), first, mv-1, mv, mv)
 			default:
 				minVal = mv
 			}
@@ -1023,7 +1026,7 @@ func c19M5(r *core.R) {
 			emit("kind@"+name, "", "not evaluated: see lookup@"+name, "", false)
 		}
 		if lookupBad == "" && lookupUnknown == "" || minBad != "" || minUnknown != "" {
-			emit("min@"+name, minBad, minUnknown, fmt.Sprintf("%s = %d >= 1 (a numbered state file)", m.minFld.Name(), minVal), true)
+			emit("min@"+name, minBad, minUnknown, fmt.Sprintf("%s = %d, the least sequence number a replication directory can hold (%s): the state the search takes for the lowest of the directory is the lowest possible one", m.minFld.Name(), minVal, firstWhy), true)
 		} else {
 			emit("min@"+name, "", "not evaluated: see lookup@"+name, "", false)
 		}
